@@ -9,14 +9,14 @@ import (
 	"github.com/tonistiigi/fsutil/zz_verif/v"
 )
 
-var hostilePaths = []string{"a", "a/b", "b", "..", ".", "", "../out/x", "/abs", "a/../..", "ln/x", "lf", "a/./b", "b/"}
-var hostileLinks = []string{"", "a", "../out/secret", "/out/secret", "nosuch", "lf"}
+var vh_hostilePaths = []string{"a", "a/b", "b", "..", ".", "", "../out/x", "/abs", "a/../..", "ln/x", "lf", "a/./b", "b/"}
+var vh_hostileLinks = []string{"", "a", "../out/secret", "/out/secret", "nosuch", "lf"}
 
 // reduced candidate lists (parameter R=1) for longer scripts
-var hostilePathsR = []string{"a", "a/b", "..", "ln/x", "lf"}
-var hostileLinksR = []string{"", "a", "../out/secret"}
+var vh_hostilePathsR = []string{"a", "a/b", "..", "ln/x", "lf"}
+var vh_hostileLinksR = []string{"", "a", "../out/secret"}
 
-func sentinelUnchanged(before, after []m.Entry) bool {
+func vh_sentinelUnchanged(before, after []m.Entry) bool {
 	if len(before) != len(after) {
 		return false
 	}
@@ -48,14 +48,14 @@ func VH_C03_hostile() {
 	rootBefore := m.SnapshotAll()
 
 	ctx := context.Background()
-	rcv, snd := newStreamPair(ctx, 256)
+	rcv, snd := vh_newStreamPair(ctx, 256)
 	var recvErr error
 	done := make(chan struct{})
 	go func() {
 		recvErr = Receive(ctx, rcv, dest, ReceiveOpt{})
 		close(done)
 	}()
-	var spec specValidator
+	var spec vh_specValidator
 	offending := false
 	var regular []string
 	var sent []string
@@ -73,7 +73,7 @@ func VH_C03_hostile() {
 		chain += "0"
 		spec.accept(chain, true, false)
 		regular = append(regular, chain)
-		snd.SendMsg(&types.Packet{Type: types.PACKET_STAT, Stat: &types.Stat{Path: chain, Mode: uint32(os.ModeDir) | 0755, Uid: 9, Gid: 9, ModTime: mtimeChoices[0]}})
+		snd.SendMsg(&types.Packet{Type: types.PACKET_STAT, Stat: &types.Stat{Path: chain, Mode: uint32(os.ModeDir) | 0755, Uid: 9, Gid: 9, ModTime: vh_mtimeChoices[0]}})
 	}
 	for i := 0; i < k && !offending; i++ {
 		if v.Bool("is-data") {
@@ -84,9 +84,9 @@ func VH_C03_hostile() {
 			v.Cover("unrequested-data")
 			break
 		}
-		hp, hl := hostilePaths, hostileLinks
+		hp, hl := vh_hostilePaths, vh_hostileLinks
 		if v.Param("R", 0) != 0 {
-			hp, hl = hostilePathsR, hostileLinksR
+			hp, hl = vh_hostilePathsR, vh_hostileLinksR
 		}
 		if deep > 0 {
 			hp, hl = []string{chain + "/m", chain + "/m/f", chain + "/n"}, []string{"", out + "/sub"}
@@ -100,7 +100,7 @@ func VH_C03_hostile() {
 		} else {
 			mode = v.U32("mode")
 		}
-		st := &types.Stat{Path: p, Mode: mode, Linkname: link, Uid: 9, Gid: 9, ModTime: mtimeChoices[0]}
+		st := &types.Stat{Path: p, Mode: mode, Linkname: link, Uid: 9, Gid: 9, ModTime: vh_mtimeChoices[0]}
 		fm := os.FileMode(mode)
 		ok := spec.accept(p, fm.IsDir(), false)
 		// an entry the receiver turns into a hard link: not a directory / device / fifo / symlink, with a link name
@@ -169,23 +169,23 @@ func VH_C03_hostile() {
 	<-done
 	v.Observe("failed", recvErr != nil)
 	after := m.Snapshot(out)
-	v.Assert(sentinelUnchanged(before, after), "nothing outside the destination was created, modified, re-owned, re-linked or deleted")
+	v.Assert(vh_sentinelUnchanged(before, after), "nothing outside the destination was created, modified, re-owned, re-linked or deleted")
 	rootAfter := m.SnapshotAll()
 	nOutsideBefore, nOutsideAfter := 0, 0
 	for _, e := range rootBefore {
-		if !isUnder(e.Path, "dest") {
+		if !vh_isUnder(e.Path, "dest") {
 			nOutsideBefore++
 		}
 	}
 	for _, e := range rootAfter {
-		if !isUnder(e.Path, "dest") {
+		if !vh_isUnder(e.Path, "dest") {
 			nOutsideAfter++
 		}
 	}
 	v.Assert(nOutsideBefore == nOutsideAfter, "no entry appeared or disappeared outside the destination (including its parent)")
 	for _, op := range m.Ops() {
 		if op.Kind != "read" {
-			v.Assert(isUnder(op.Path, dest), "every mutating file-system operation resolves strictly inside the destination")
+			v.Assert(vh_isUnder(op.Path, dest), "every mutating file-system operation resolves strictly inside the destination")
 		}
 	}
 	if offending {
@@ -193,7 +193,7 @@ func VH_C03_hostile() {
 		v.Assert(recvErr != nil, "an ill-formed, unordered, parent-less, unknown-link or unrequested-data stream makes Receive fail")
 		if len(sent) > 0 {
 			last := sent[len(sent)-1]
-			if specWellFormed(last) && last != "ln" && last != "lf" && !isUnder(last, "ln") {
+			if vh_specWellFormed(last) && last != "ln" && last != "lf" && !vh_isUnder(last, "ln") {
 				fresh := true
 				for _, q := range sent[:len(sent)-1] {
 					if q == last {
